@@ -7,6 +7,7 @@ LaTeX values go through `Text.from_latex`.
 case ::= {"op": "render",   "tree": tree, "backend": B}
        | {"op": "fromlatex", "value": str [, "stream": label, "brief": true]}
        | {"op": "document", "entries": [{"key", "label", "tree"}], "backend": B, "preamble": str, "encoding": str|null, "php_extra": bool}
+       | function-level cases {"op": "fmt" | "parse" | "render_as", ...}: see harness/props/c09_ext.py
 B    ::= "html" | "markdown" | "latex" | "plaintext"
 tree ::= the wire format of C08
 
@@ -27,10 +28,11 @@ import re
 import compat  # noqa: F401
 from props import c08
 from props import c09_readers as R
+from props import c09_ext as X
 from props.base import corpus_for
 
 ID = 'C09'
-LEAN_MODULES = ['PybtexModel.Props.C09']
+LEAN_MODULES = ['PybtexModel.Props.C09', 'PybtexModel.Props.C09x']
 THEOREMS = {
     'C09_tables': 'the regenerated tables have the shape the theorems rely on: markdown SPECIAL_CHARS covers the fixed list of characters Markdown lets one backslash-escape (dropping one breaks the build), has no duplicates, the backslash first; html escapes are the three entities; every symbol of every backend is non-empty, brace-balanced in LaTeX, an entity or plain characters in HTML; the symbols are written as the FIXED tables of the specification say (plain text: - / blank / blank; Markdown: one of the documented forms; LaTeX: -- ~ \\newblock); the LaTeX codec table maps no ASCII character to text containing a brace, its entries are control symbols of escapable characters or text control words and cover every special character except \\ { } $ ^; the non-ASCII part of the table is ASCII-valued, non-empty and brace-balanced',
     'C09_html_wellformed': 'HTML, under HtmlOK t (identifier-like tag names, quote-free URLs): the output is well formed - the strict string reader Html.read accepts it and finds every character inside exactly the elements of the markup attached to it (attribute contents are skipped, not checked)',
@@ -49,6 +51,11 @@ THEOREMS = {
     'C09_encode': 'the modelled ASCII part of the latexcodec encoder satisfies what the LaTeX theorems assume: nothing erased, brace depth kept (balanced stays balanced), identity on Latex.transparent characters (outside its table); part 5, depth round trip from_latex -> LaTeX, ONLY for balanced values of transparent characters (no # % & _ ~ ...); for other values only depthAfter preservation and part 1 of C09_from_latex_depth are available',
     'C09_document': 'part 1 [model wiring]: writeToStream is DEFINED as prologue ++ writeEntries ++ epilogue; the statement re-expresses the recursion as a zipWith over the entries (carried by the correspondence check on whole documents); real content, parts 2-4: a document is written whenever every entry renders (also the empty bibliography, fix C09-1); longestLabel is an element of maximal width, the first such',
     'C09_document_frame': 'the frame of an entry: HTML is well formed whatever the label (label inside <dt>, text inside <dd>; fix C09-2), Markdown escapes the label like every string (fix C09-2), and for a label without braces TeX reads the optional argument of \\bibitem as the label, also when it contains ] (fix C09-3), followed by the key',
+    'C09_parse_level': 'LaTeXParser(text).parse(level) for every level > 0 (the parser inside a group): if the text has a closing brace that closes nothing (text = body } after, Tex.splitAtClose) the parse succeeds, the Text denotes the non-brace characters of body each at its brace depth, and the scanner stands just behind that brace (pos, lineno); otherwise the located syntax error (end of text, scanner behind the last brace); part 3 [model wiring]: level 0 is parse',
+    'C09_encodings': 'every input encoding the model names (ascii, latin-1, UTF-8 and the eight codecs of the regenerated table Gen.extraEncodings, by each listed spelling) contains ASCII, hence C09_latex_encoding holds for latex.Backend(encoding) with each of them: encoded Strings representable / non-erased / same brace depth; the encoder fails exactly on an untranslatable character; a successful rendering is representable when the URLs are and brace-balanced when parts and URLs are',
+    'C09_latex_file': 'write_to_file of the LaTeX backend, any encoding E containing ASCII: a document that write_to_stream produced is representable in E -- so the file is written and holds exactly the document -- PROVIDED preamble, labels, keys and URLs (all written verbatim) are representable in E; text never causes the UnicodeEncodeError of the file (nonvacuous part 2: the hypothesis on labels cannot be dropped)',
+    'C09_html_methods': 'HTML, function level, ARBITRARY arguments (not only renderings): format_str(s) is well formed and reads back as s; well-formedness in every element context (HtmlReadsAs: the strict reader Html.run started inside any open elements accepts the string and leaves them open) is kept by render_sequence, format_tag with an identifier-like non-empty name, format_href with a quote-free URL (attribute contents skipped, as in C09_html_wellformed) and format_protected, for a non-empty argument, and the characters of the argument sit inside exactly one more element (<name>, <a>, <span>); HtmlReadsAs implies Html.read accepts at top level',
+    'C09_render_as': 'Text.render_as(name): every plug-in name and alias the regenerated entry-point table lists for pybtex.backends resolves to one of the four backend classes, each class is reached by its name, the empty name gives LaTeX (table facts, kernel-checked); [model wiring]: render_as is render with a fresh backend of that class, an unknown name is PluginNotFound; runtime plug-ins (register_plugin) are not modelled',
     'C09_document_frame_neg': 'LaTeX writes label and key verbatim: an unbalanced brace in the label leaves \\bibitem[ without argument, A&B is written unescaped and not read as text (finding C09-latex-label-verbatim)',
 }
 LEVEL_TEXT = ('Machine-checked proofs (Lean 4) over an executable model that follows pybtex/backends/{__init__,html,markdown,latex,plaintext}.py, '
@@ -78,7 +85,7 @@ LEVEL_NOTE = ('Trusted: Lean kernel; axioms propext/Classical.choice/Quot.sound 
               '(theorems state what they need of it: non-erasing, brace-free/balanced text stays so, identity on the characters of the value for the string-level depth claim); '
               'its instances are the two-state machine (blank after a control word) over the ASCII table regenerated by probing the real codec on code points 0..127 and all '
               'pairs with the special characters, and over the non-ASCII part of its translation table (367 characters, probed under ascii / latin-1 / UTF-8); the input encodings modelled are '
-              'ascii, latin-1 and UTF-8; the decoder is a bare parameter (the harness feeds the really decoded value to the model). '
+              'ascii, latin-1, UTF-8 and eight further 8-bit codecs whose encodable code points are regenerated from the interpreter (Gen/BackendsEnc.lean); the decoder is a bare parameter (the harness feeds the really decoded value to the model). '
               'xml.sax.saxutils.escape is modelled by its probed character table.  KNOWN LIMITS of the code, recorded as findings and reported by every run (KNOWN-FINDING lines): '
               'LaTeX passes \\ { } $ ^ of the text through (by design: field values are LaTeX source), writes URLs verbatim (a % or # in a link inside a command argument breaks it) and '
               'writes labels / keys verbatim; Markdown code spans show the escaped source, emphasis delimiters ignore the delimiter-run rules, link destinations with parentheses and nested '
@@ -98,14 +105,16 @@ TRUSTED = ['the tree builder of harness/props/c08.py; the independent readers of
            'code spans, emphasis by delimiter runs, inline links, raw HTML tags)',
            'latexcodec (encoder modelled by probed tables, decoder a parameter; the decoder is also the reader of translated output under ascii / latin-1), xml.sax.saxutils.escape (probed table)',
            'the fixed tables of the oracle: what the three symbols are in each format, which Markdown element the five documented tags stand for, RFC 3986 URL characters']
-ASSUMPTIONS = ['LaTeX backend with the encodings ascii, latin-1, UTF-8 (and the default); tag names / URLs are plain strings; reader clauses on identifier-like tag names, URLs of RFC 3986 characters, the three symbols every backend knows',
+ASSUMPTIONS = ['LaTeX backend with the encodings ascii, latin-1, UTF-8 (and the default) and the eight further codecs of the regenerated table Gen/BackendsEnc.lean (iso-8859-2, iso-8859-15, cp1252, cp1250, koi8-r, cp437, mac-roman, iso-8859-7; other encodings: not modelled); tag names / URLs are plain strings; reader clauses on identifier-like tag names, URLs of RFC 3986 characters, the three symbols every backend knows',
                'latexcodec behaves on all strings as the two-state machine verified on the probed shapes; its decoder is fed to the model as data',
                'Markdown is read by the CommonMark 0.30 inline rules; block structure and white-space collapsing are not interpreted',
                'write_to_file is compared where the file encoding can represent the document']
 TABLE_OWNERS = ('C09',)
 
 BACKENDS = ['html', 'markdown', 'latex', 'plaintext']
-ENCODINGS = [None, 'ascii', 'latin-1', 'UTF-8']          # the encodings Model/Backends.lean names (`Latex.encodableIn`)
+ENCODINGS = [None, 'ascii', 'latin-1', 'UTF-8',          # the encodings Model/Backends.lean names (`Latex.encodableIn`)
+             'iso-8859-2', 'latin2', 'iso-8859-15', 'cp1252', 'windows-1252', 'cp1250', 'koi8-r', 'cp437', 'mac-roman', 'iso-8859-7', 'greek']
+#            ... and spellings of the eight further codecs of Gen/BackendsEnc.lean (`Latex.encodableInX`, harness/tablegen/c09.py EXTRA_ENCODINGS)
 KNOWN_SYMBOLS = ('ndash', 'nbsp', 'newblock')
 
 # ------------------------------------------------------------------------------------------------
@@ -260,6 +269,12 @@ def impl(case):
         return impl_fromlatex(case)
     if op == 'document':
         return impl_document(case)
+    if op == 'fmt':
+        return X.impl_fmt(case)
+    if op == 'parse':
+        return X.impl_parse(case)
+    if op == 'render_as':
+        return X.impl_render_as(case)
     raise ValueError(op)
 
 
@@ -303,6 +318,8 @@ def _model_view(case, out, trees):
 
 
 def model_out(case, reply):
+    if case['op'] in ('fmt', 'parse', 'render_as'):
+        return X.model_out(case, reply)
     out = reply['out']
     if case['op'] == 'fromlatex' and case.get('brief') and isinstance(out, dict) and 'tree' in out:
         out = {'latex': out['latex']}
@@ -635,11 +652,25 @@ def _decode_latex(text):
     out again, so that two neighbouring ligatures are not told apart by where the decoder happens to cut them (---- = -- -- = --- -)"""
     import codecs
     import latexcodec  # noqa: F401
-    d = codecs.decode(text, 'ulatex')
+    # TeX opens display math only on `$$` met in horizontal mode: in `$\beta$$\gamma$` the second `$` closes the first formula and the third opens the
+    # next one.  The decoder cuts `$$` first and then reads neither formula; a blank between them (white space is not compared) lets it read as TeX does.
+    d = codecs.decode(text.replace('$$', '$ $'), 'ulatex')
     for ch, spelled in _LIGATURES:
         d = d.replace(ch, spelled)
     # white space is not compared: TeX (and the decoder) skips every kind of white space behind a control word, the encoder protects blanks only
     return ''.join(d.split())
+
+
+def latex_encoding_text_clause(tree, text, enc):
+    """translated characters: the LaTeX decoder reads the same text from the output of latex.Backend(enc) as from the output of the UTF-8 backend.  None = holds."""
+    ref = impl_render({'tree': tree, 'backend': 'latex'})
+    try:
+        if 'text' in ref and _decode_latex(text) != _decode_latex(ref['text']):
+            return 'latex.Backend(%r) wrote %r, which decodes to %r; the UTF-8 backend wrote %r, which decodes to %r' % (
+                enc, text, _decode_latex(text), ref['text'], _decode_latex(ref['text']))
+    except (UnicodeError, ValueError):
+        pass
+    return None
 
 
 def oracle_render(case, io_, spec):
@@ -738,13 +769,9 @@ def oracle_render(case, io_, spec):
         elif in_domain and not direct and not fails and all(_encodable(c, enc) or codec_reads_back(c) for x in strings for c in x):
             # translated characters: the LaTeX decoder reads the same text (braces included: same depth) from this output
             # as from the output of the UTF-8 backend
-            ref = impl_render({'tree': tree, 'backend': 'latex'})
-            try:
-                if 'text' in ref and _decode_latex(text) != _decode_latex(ref['text']):
-                    fails.append('latex_encoding_text: latex.Backend(%r) wrote %r, which decodes to %r; the UTF-8 backend wrote %r, which decodes to %r' % (
-                        enc, text, _decode_latex(text), ref['text'], _decode_latex(ref['text'])))
-            except (UnicodeError, ValueError):
-                pass
+            why = latex_encoding_text_clause(tree, text, enc)
+            if why:
+                fails.append('latex_encoding_text: %s' % why)
     elif b == 'plaintext':
         if text != plain:
             fails.append('plain: output %r, the text with symbols replaced by their plain equivalents is %r' % (text, plain))
@@ -935,11 +962,19 @@ def oracle(case, impl_out, reply):
         return oracle_fromlatex(case, impl_out, spec)
     if op == 'document':
         return oracle_document(case, impl_out, spec)
+    if op == 'fmt':
+        return X.oracle_fmt(case, impl_out, spec)
+    if op == 'parse':
+        return X.oracle_parse(case, impl_out, spec)
+    if op == 'render_as':
+        return X.oracle_render_as(case, impl_out, spec)
     return []
 
 
 def buckets(case, impl_out):
     op = case['op']
+    if op in ('fmt', 'parse', 'render_as'):
+        return X.buckets(case, impl_out)
     out_kind = ('text' if 'text' in impl_out else 'unknown-symbol' if 'unknown_symbol' in impl_out else 'error:%s' % impl_out.get('exception')) \
         if isinstance(impl_out, dict) else 'other'
     if op == 'render':
@@ -969,6 +1004,8 @@ def buckets(case, impl_out):
 
 def nontrivial(case, impl_out):
     op = case['op']
+    if op in ('fmt', 'parse', 'render_as'):
+        return X.nontrivial(case, impl_out)
     if op == 'render':
         return bool(isinstance(impl_out, dict) and impl_out.get('text'))
     if op == 'fromlatex':
@@ -1024,16 +1061,20 @@ def _neutral_md_links(tree):
 
 _CAUSES = {
     'latex_text': [('C09-latex-text-passthrough', _neutral_passthrough), ('C09-latex-url-in-argument', _neutral_url_hash)],
+    # a backslash of the text (passed through) in front of a translated character: `\\` + `\'z` is read as `\\\\` + `'z` (same finding: the text acts as markup)
+    'latex_encoding_text': [('C09-latex-text-passthrough', _neutral_passthrough)],
     'md_reader': [('C09-markdown-code-span', _neutral_tt), ('C09-markdown-emphasis-runs', _neutral_emphasis),
                   ('C09-markdown-link-syntax', _neutral_md_links)],
 }
 
 
 def _clause_fails(clause, tree, case):
-    backend = 'latex' if clause == 'latex_text' else 'markdown'
+    backend = 'latex' if clause in ('latex_text', 'latex_encoding_text') else 'markdown'
     r = impl_render({'tree': tree, 'backend': backend, 'encoding': case.get('encoding')})
     if 'text' not in r:
         return True
+    if clause == 'latex_encoding_text':
+        return latex_encoding_text_clause(tree, r['text'], case.get('encoding')) is not None
     if clause == 'latex_text':
         return latex_text_clause(tree, r['text']) is not None
     return md_reader_clause(tree, r['text']) is not None
@@ -1123,6 +1164,8 @@ def valid_case(case):
               all(isinstance(e, dict) and isinstance(e.get('key'), str) and isinstance(e.get('label'), str) and _tree_ok(e.get('tree')) for e in es) and
               case.get('encoding') in ENCODINGS and case.get('php_extra') in (None, True, False) and case.get('via') in (None, 'stream', 'file'))
         return bool(ok and (case.get('via') != 'file' or _file_representable(case)))
+    if op in ('fmt', 'parse', 'render_as'):
+        return X.valid_case(case)
     return False
 
 
@@ -1142,7 +1185,8 @@ URLS_ODD = ['a"b', '{', 'a}b', 'a<b>', 'x y)']                                  
 URLS_SYNTAX = ['x)y', 'a(b', 'u(v)w', 'http://x/(a)', 'u%v#w', 'a#b', 'a%20b', 'http://x/?a=1&b=2#f']   # ordinary (RFC 3986 characters), hard for some output syntax
 UNKNOWN_SYMS = [{'y': 'emdash'}, {'y': 'foo'}]                      # outside the domain: KeyError, model vs code only
 NONASCII_WORDS = [u'naïve', u'é', u'Ł', u'ß x', u'ø a', u'–', u'x—y', u'α', u'€ 3', u'中', u'a\xa0b', u'œuvre', u'ıx', u'«q»', u'ﬁ', u'ǳ', u'\u2009.',
-                  u'é{x}', u'~é', u'é~', u'Ç_x', u'\xa3 5', u'\xa35']
+                  u'é{x}', u'~é', u'é~', u'Ç_x', u'\xa3 5', u'\xa35',
+                  u'Łódź', u'привет', u'αβ γ', u'€uro', u'═a', u'ő_', u'\uf8ff x']          # for the further encodings (latin2, koi8-r, greek, cp1252, cp437, mac-roman)
 node = c08.node
 
 
@@ -1467,6 +1511,16 @@ def gen_cases(tier, rng, info):
                          ' (every third)' if quick else '', len(special), len(TAGS_UNKNOWN), len(TAGS_ODD), len(URLS), len(URLS_ODD), len(URLS_SYNTAX),
                          len(enc_trees), len(NONASCII_WORDS), ENCODINGS, len(unk), len(docs), len(LABELS_META), len(KEYS_META), len(ENCODINGS),
                          5 if quick else 7, 4 if quick else 5, len(vals)))
+    # (5b) function level: every formatting method of every backend on its own, parse(level), render_as
+    fl = list(X.fmt_cases(quick)) + list(X.parse_cases(quick)) + list(X.render_as_cases())
+    cases += fl
+    info['scope'] += ('; function level (%d cases): each of %s of html / markdown / markdown+php_extra / latex / latex(ascii) / latex(iso-8859-2) / plaintext on every string of '
+                      'length <=1 over the alphabet + %d words, every tag name x %d rendered texts, %d URLs x 5 texts x both link modes, labels over the metacharacters x 2 keys; '
+                      'get_longest_label on every list of <=%d labels from a pool of %d; width per printable ASCII character; LaTeXParser(text).parse(level) for every string of '
+                      'length <=%d over {a, {, }} x level 0..2 (+ line breaks x level 0..1); render_as for %d names (plug-in names, aliases, the empty name, unknown ones) x 6 trees' % (
+                          len(fl), ', '.join(X.FMT_FUNCS), len(WORDS) + len(NONASCII_WORDS), len(X.RENDERED), len(URLS) + 7, 2 if quick else 3, len(X.LABEL_POOL),
+                          5 if quick else 6, len(X.RENDER_AS_NAMES)))
+    cases += X.rand_cases(rng, 800 if quick else 20000)
     # (6) random
     nrand = 2500 if quick else 60000
     for _ in range(nrand):
